@@ -162,6 +162,18 @@ async fn request<S: Serialize>(
     method: Method,
     data: Option<S>,
 ) -> Result<Response, RequestError> {
+    #[cfg(feature = "verif")]
+    if let Some(net) = crate::verif_net::simnet() {
+        return net
+            .request(
+                tower_net_addr.net_addr().to_owned(),
+                endpoint.to_string(),
+                method.to_string(),
+                data.as_ref().map(|d| serde_json::to_value(d).unwrap()),
+            )
+            .await;
+    }
+
     let client = if let Some(proxy) = proxy {
         if proxy.always_use || tower_net_addr.is_onion() {
             reqwest::Client::builder()
